@@ -19,6 +19,7 @@ type AuthSpec struct {
 	Get            string
 	Trailing       []byte
 	Var            int
+	RPID           []byte // when set: the RP ID the authenticator hashes (otherwise the host of Origin)
 }
 
 func (s *AuthSpec) d(n string) bool { return s.Dev[n] }
@@ -50,7 +51,40 @@ func newAuthSpec(r *RNG, origin string, cred *KeyPair, credID, owner, pk []byte)
 	if r.P(1, 3) {
 		s.CDExtra = M{"crossOrigin": false}
 	}
+	if r.P(1, 3) {
+		s.Client = benignClientOrigin(r, origin)
+	}
 	return s
+}
+
+// benignClientOrigin: an acceptable client origin other than the RP origin itself (subdomain, other scheme, other port)
+func benignClientOrigin(r *RNG, origin string) string {
+	h := hostOf(origin)
+	switch r.Intn(3) {
+	case 0:
+		if len(origin) > 0 && origin[len(origin)-1] != ']' && h != "192.168.1.10" && h != "2001:db8::1" {
+			return pick(r, []string{"https://sub." + h, "https://a.b." + h, "https://x." + h + ":8443"})
+		}
+	case 1:
+		if len(origin) > 8 && origin[:8] == "https://" {
+			return "http://" + origin[len("https://"):]
+		}
+	case 2:
+		if h != "2001:db8::1" {
+			return "https://" + h + ":9443"
+		}
+	}
+	return origin
+}
+
+// parentOrigin: the origin of the parent domain of origin's host (never acceptable)
+func parentOrigin(h string) string {
+	for i := 0; i < len(h); i++ {
+		if h[i] == '.' {
+			return "https://" + h[i+1:]
+		}
+	}
+	return "https://parent.example"
 }
 
 func buildAssertion(r *RNG, s *AuthSpec) M {
@@ -63,10 +97,13 @@ func buildAssertion(r *RNG, s *AuthSpec) M {
 	}
 	if s.d("cd.origin") {
 		h := hostOf(s.Origin)
-		cd.Origin = variant(r, s.Var, []string{"https://evil.example", "https://evil" + h, "https://" + h + ".evil.com", "https://evil.com/" + h, "https://" + h + "@evil.com", "", "https://evil.com?" + h, "https://evil.com#" + h, "null", "https://www.not" + h, "https://x" + h + ":443", "https://login.evil" + h, "https://attacker.test.", "https://" + h + ".", "https://login.attacker.test.:8443", "https://" + h + "..", "https://evil.example./"})
+		cd.Origin = variant(r, s.Var, []string{"https://evil.example", "https://evil" + h, "https://" + h + ".evil.com", "https://evil.com/" + h, "https://" + h + "@evil.com", "", "https://evil.com?" + h, "https://evil.com#" + h, "null", "https://www.not" + h, "https://x" + h + ":443", "https://login.evil" + h, "https://attacker.test.", "https://" + h + ".", "https://login.attacker.test.:8443", "https://" + h + "..", "https://evil.example./", parentOrigin(h)})
 	}
 	cdj := cd.JSON(r)
 	ad := AuthDataSpec{RPIDHash: sha([]byte(hostOf(s.Origin))), Flags: s.Flags, Counter: s.Counter, Ext: s.Ext}
+	if s.RPID != nil {
+		ad.RPIDHash = sha(s.RPID)
+	}
 	if s.d("ad.rpIdHash") {
 		ad.RPIDHash = variant(r, s.Var, [][]byte{sha([]byte(s.Origin)), sha([]byte("evil.example")), r.Bytes(32), sha([]byte(hostOf(s.Origin) + ".")), make([]byte, 32)})
 	}
